@@ -50,7 +50,7 @@ CHECKS = {
         text="Coq theorems over Model/Api.v for EVERY list of messages delivered during detection: the exposed set is exactly SYS plus the ids whose AVAIL line with a value was delivered, "
         "each id maps to the class with that id (regenerated tables, ids unique), detection submits one AVAIL query per known id and the sync query last; population reduces to C06 + C03 per "
         "exposed subunit. The real YncaApi.initialize() runs under the deterministic harness against the 12 recorded receivers, random synthetic devices (subsets of subunits/functions, "
-        "unsolicited updates, latency/jitter, receivers that sleep through their first one or two lines) and PAIRS of API objects on different devices initialising concurrently; accessor sets compared with the model, values with an independent reference.",
+        "unsolicited updates, latency/jitter, receivers that sleep through their first one or two lines; in 30 % of the sessions the application has earlier written one value to every writable function of another object of each class -- what was written there plays no part) and PAIRS of API objects on different devices initialising concurrently; accessor sets compared with the model, values with an independent reference.",
         note=BASE_NOTE + HARNESS_NOTE + " PARTIAL: device predicates (FIFO replies, AVAIL lines only in answer to the AVAIL query) are hypotheses validated against the 12 recordings only.",
         technique="Coq proof (induction over delivered messages, reflection over regenerated tables) + differential correspondence via deterministic simulation",
         design_ref="6 (C07)",
